@@ -36,7 +36,7 @@ STUBS = [
     "10**x and log10 are uninterpreted functions constrained to be mutually inverse and monotone",
     "ModelFittingDataTree built with __new__ and the attributes its methods read (_variables)",
 ]
-OUTSIDE = ["pygmo respecting the box it is given; xarray packaging of champions; IEEE rounding of 10**x"]
+OUTSIDE = ["pygmo respecting the box it is given; IEEE rounding of 10**x", "best-individual reporting is executed with real xarray on concrete populations (all rankings of three individuals)"]
 ASSUMPTIONS = ["boundaries are finite with lo <= hi, and lo > 0 for logarithmic parameters"]
 EXPLANATION = "single path per layout; LRA + UF(pow10/log10)"
 
